@@ -166,6 +166,10 @@ pub fn tables<F: BoolExt>(args: &Args) {
                         }
                         if !good || cnt % sample_every == 0 {
                             if let Some(slot) = s.log_result($opname, $args, $extra, r) {
+                                if !good {
+                                    // not the canonical handle: are its cofactors still the Shannon cofactors?
+                                    cofactors_of(&mut s, slot);
+                                }
                                 s.drop_h(slot);
                             }
                         }
@@ -294,7 +298,7 @@ pub fn tables<F: BoolExt>(args: &Args) {
                     }
                 }
                 // restrict by every literal cube
-                for c in 0..(if grp("quant") { 27usize } else { 0 }) {
+                for c in 0..(if grp("quant") || grp("restrict") { 27usize } else { 0 }) {
                     let cs = h[cube_tt(c)];
                     for f in 0..256usize {
                         let exp = t2(&restrict, c, f);
@@ -397,6 +401,64 @@ fn release_substs<F: BoolExt>(s: &mut Session<F>, substs: &mut Vec<(Subst<F>, Ve
     }
 }
 
+/// stress mode: every cached operator on a small window of operands and the
+/// kept cube / variable-set handles; results are dropped at once.  Called
+/// with the very same handles before and after an invalidation point
+/// (add_vars, gc, reordering): a stale cache entry changes a result.
+fn same_calls_block<F: BoolExt>(s: &mut Session<F>, win: &[Slot], cubes: &[Slot], varsets: &[Slot], salt: usize) {
+    let dropr = |s: &mut Session<F>, r: Option<Slot>| {
+        if let Some(x) = r {
+            s.drop_h(x);
+        }
+    };
+    for (i, &a) in win.iter().enumerate() {
+        if s.dead {
+            return;
+        }
+        for &c in cubes {
+            let r = s.op("restrict", &[a, c], json!({}), |s| s.get(a).restrict(s.get(c)));
+            dropr(s, r);
+        }
+        if F::HAS_QUANT {
+            for (k, &vs) in varsets.iter().enumerate() {
+                let q = ["exists", "forall", "unique"][(i + k + salt) % 3];
+                let r = s.op(q, &[a, vs], json!({}), |s| s.get(a).quant(q, s.get(vs)));
+                dropr(s, r);
+            }
+        }
+        if F::HAS_ZOPS {
+            let op = ["subset0", "subset1", "change"][(i + salt) % 3];
+            for v in 0..s.n {
+                let r = s.op(op, &[a], json!({ "v": v }), |s| s.get(a).zvar(op, v));
+                dropr(s, r);
+            }
+        }
+        let r = s.not(a);
+        dropr(s, r);
+        for (j, &b) in win.iter().enumerate() {
+            let op = BIN_OPS[(i * 3 + j + salt) % 8];
+            let r = s.bin(op, a, b);
+            dropr(s, r);
+            if F::HAS_ZOPS {
+                let op = ["union", "intsec", "diff"][(i + j + salt) % 3];
+                let r = s.op(op, &[a, b], json!({}), |s| s.get(a).zbin(op, s.get(b)));
+                dropr(s, r);
+            }
+            if F::HAS_QUANT && !varsets.is_empty() {
+                let vs = varsets[(i + j) % varsets.len()];
+                let q = ["exists", "forall", "unique"][(j + salt) % 3];
+                let r = s.op(&format!("apply_{q}"), &[a, b, vs], json!({ "bop": op }), |s| {
+                    s.get(a).apply_quant(q, op, s.get(b), s.get(vs))
+                });
+                dropr(s, r);
+            }
+        }
+        let (b, c) = (win[(i + 1) % win.len()], win[(i + 2) % win.len()]);
+        let r = s.ite(a, b, c);
+        dropr(s, r);
+    }
+}
+
 /// V + S binding: seeded random histories over 2..=nmax variables
 pub fn hist<F: BoolExt>(args: &Args) {
     let dir = args.get("out", "/verif/out/tmp");
@@ -437,11 +499,47 @@ pub fn hist<F: BoolExt>(args: &Args) {
                 l
             })
             .collect();
-        for _ in 0..steps {
+        // ... and, built once and kept alive, the handles of these cubes: the
+        // very same handles are then used before and after every collection,
+        // add_vars and reordering (stale cache entries keyed by them)
+        let mut fixed_cubes: Vec<Slot> = Vec::new();
+        let mut fixed_varsets: Vec<Slot> = Vec::new();
+        if stress {
+            for l in &fixed_lits {
+                if let Some(c) = cube(&mut s, l) {
+                    fixed_cubes.push(c);
+                }
+                let vs: Vec<(u32, bool)> = l.iter().map(|&(v, _)| (v, true)).collect();
+                if let Some(c) = cube(&mut s, &vs) {
+                    fixed_varsets.push(c);
+                }
+            }
+        }
+        let block_at = steps / 2;
+        for step in 0..steps {
             if s.dead {
                 break;
             }
-            let live = s.live();
+            let mut live = s.live();
+            live.retain(|x| !fixed_cubes.contains(x) && !fixed_varsets.contains(x));
+            if stress && step == block_at && live.len() >= 3 {
+                // the same calls on the same handles around every invalidation point
+                let win: Vec<Slot> = live.iter().copied().take(4).collect();
+                let salt = rng.below(24);
+                same_calls_block(&mut s, &win, &fixed_cubes, &fixed_varsets, salt);
+                s.add_vars(1);
+                same_calls_block(&mut s, &win, &fixed_cubes, &fixed_varsets, salt);
+                s.snap();
+                s.gc();
+                same_calls_block(&mut s, &win, &fixed_cubes, &fixed_varsets, salt);
+                if F::REORDER_LIVE_OK && !s.dead {
+                    let p = rng.perm(s.n as usize);
+                    s.reorder(&p);
+                    same_calls_block(&mut s, &win, &fixed_cubes, &fixed_varsets, salt);
+                }
+                s.snap();
+                continue;
+            }
             // keep the store small: collect when many handles are live
             if live.len() > 20 {
                 for &x in live.iter().take(8) {
@@ -510,7 +608,9 @@ pub fn hist<F: BoolExt>(args: &Args) {
                     } else {
                         (0..s.n).filter(|_| rng.chance(1, 3)).map(|v| (v, true)).collect()
                     };
-                    if let Some(cs) = cube(&mut s, &vs) {
+                    let kept = stress && fixed_varsets.len() == 3 && rng.chance(2, 3);
+                    let cs0 = if kept { Some(fixed_varsets[rng.below(3)]) } else { cube(&mut s, &vs) };
+                    if let Some(cs) = cs0 {
                         let q = ["exists", "forall", "unique"][rng.below(3)];
                         let a = pick(&mut rng, &live);
                         if rng.chance(1, 2) {
@@ -525,7 +625,9 @@ pub fn hist<F: BoolExt>(args: &Args) {
                                 |s| s.get(a).apply_quant(q, op, s.get(b), s.get(cs)),
                             );
                         }
-                        s.drop_h(cs);
+                        if !kept {
+                            s.drop_h(cs);
+                        }
                     }
                 } else if F::HAS_ZOPS {
                     let a = pick(&mut rng, &live);
@@ -568,12 +670,16 @@ pub fn hist<F: BoolExt>(args: &Args) {
                         }
                     }
                 }
-                if let Some(cs) = cube(&mut s, &lits) {
+                let kept = stress && fixed_cubes.len() == 3 && rng.chance(2, 3);
+                let cs0 = if kept { Some(fixed_cubes[rng.below(3)]) } else { cube(&mut s, &lits) };
+                if let Some(cs) = cs0 {
                     let a = pick(&mut rng, &live);
                     s.op("restrict", &[a, cs], json!({}), |s| {
                         s.get(a).restrict(s.get(cs))
                     });
-                    s.drop_h(cs);
+                    if !kept {
+                        s.drop_h(cs);
+                    }
                 }
             } else if c < 78 {
                 // substitution (new object or reuse of an earlier one)
